@@ -193,6 +193,15 @@ def nothing_after(F, R):
     fam = F.family(pa)
     ok = any(list(x.calls_to(r'^v5::shared::MqttShared::close$')) for x in fam)
     R.ob('C15.nothing-after', 'v5::shared::MqttShared::pkt_ack|uses-close()', ok, 'pkt_ack must emit its DISCONNECT through close() (flag + io.close)')
+    for d in all_dispatchers(F):
+        if d.ver != 'v5':
+            continue
+        b = d.shutdown
+        closers = {bi for bi, t in b.calls_to(r'^v5::shared::MqttShared::(close|drop_sink|force_close)$')}
+        early = set(b.yields()) & b.reachable(0, avoid=closers)
+        R.ob('C15.nothing-after', '%s|shutdown|io-closed-before-first-await' % d.name, bool(closers) and not early,
+             'the io dispatcher writes the final DISCONNECT and then drives Dispatcher::shutdown; if shutdown awaits before closing the io, responses of handlers that are still running are written after the DISCONNECT',
+             b.loc(sorted(early)[0]) if early else None)
     R.assume('ntex-io refuses writes once shutdown has started (IoRef::encode on a closing io writes nothing): extern effect, confirmed by experiment in round 0')
 
 
